@@ -24,7 +24,9 @@ RULE = ("random lists of 1..5 materials (nested structures of depth 0..2 over at
         "without data), weights >= 0 with zeros forced in 35% and all-zero in 5%, density log-uniform "
         "or 0 (5%), wavelength scalar / length-1 / length-n vector, in 12% the wavelength argument omitted or the module "
         "constant ABSORPTION_WAVELENGTH (direct calculation at 1.798); for a third of the cases the materials once more "
-        "from a private table next to the public ones, direct value also through Formula.neutron_sld; non-trivial when >= 2 materials "
+        "from a private table next to the public ones, direct value also through Formula.neutron_sld; every vector case and a "
+        "quarter of the scalar ones: the same calculator applied to three further weight/density sets with all four results "
+        "held and compared with the direct calculation afterwards; non-trivial when >= 2 materials "
         "and the result is neither zeros nor (None, None, None); distinct by canonical input")
 
 
@@ -191,6 +193,45 @@ def eval_real(pt, case):
             out["shape_ok"] = all(np.shape(v) == (n,) for v in res)
             cols = [np.broadcast_to(np.asarray(v, dtype=float), (n,)) for v in res]
             out["calc"] = [[float(c[i]) for c in cols] for i in range(n)]
+    # a set of contrasts: the SAME calculator applied to further weights / densities while the results of the
+    # earlier calls are still held ("results = [calc(w, density=rho) for w in contrasts]"); every held result -
+    # the first one included - is then compared with the direct calculation on its own weighted sum
+    out["series"] = None
+    import zlib
+    if res is not None and case["density"] > 0 and not omit and \
+            (case["mode"] == "vector" or zlib.crc32(repr(case["materials"]).encode()) % 4 == 0):
+        try:
+            nm = len(ms)
+            contrasts = [(list(case["weights"]), case["density"]),
+                         ([0.5 + 0.25 * i for i in range(nm)], case["density"] * 1.7),
+                         ([1.0 + 0.5 * (nm - 1 - i) for i in range(nm)], case["density"] * 0.3),
+                         ([2.0 if i % 2 == 0 else 0.0 for i in range(nm)], case["density"])]
+            held = [res] + [calc(np.array(wv, dtype=float), density=rho) for wv, rho in contrasts[1:]]
+            for k_, ((wv, rho), r_) in enumerate(zip(contrasts, held)):
+                if out["series"]:
+                    break
+                if all(isinstance(v, int) and v == 0 for v in r_):
+                    continue
+                mixk = functools.reduce(operator.add, [w * m for w, m in zip(wv, ms)])
+                dk = nsf.neutron_sld(mixk, density=rho, wavelength=warg)
+                if (r_[0] is None) != (dk[0] is None):
+                    out["series"] = "call %d: composite %r, direct %r" % (k_, r_[0] is None, dk[0] is None)
+                    break
+                if r_[0] is None:
+                    continue
+                if not all(np.shape(v) == np.shape(x) for v, x in zip(r_, dk)):
+                    out["series"] = "call %d: shapes %r, direct %r" % (k_, [np.shape(v) for v in r_], [np.shape(x) for x in dk])
+                    break
+                a = [np.broadcast_to(np.asarray(v, dtype=float), (n,)) for v in r_]
+                b = [np.broadcast_to(np.asarray(v, dtype=float), (n,)) for v in dk]
+                for i in range(n):
+                    for j in range(2):      # real and imaginary (incoherent has its own cancellation rule)
+                        if not close(float(a[j][i]), float(b[j][i]), rel=1e-8, abs_=1e-12 * (1 + abs(float(b[0][i])))):
+                            out["series"] = ("result of call %d (weights %r, density %r) looked at after the later calls, component "
+                                             "%d at wavelength %d: composite %r, direct %r" % (
+                                                 k_, wv, rho, j, i, float(a[j][i]), float(b[j][i])))
+        except Exception as e:  # noqa
+            out["series"] = "raises %s: %s" % (type(e).__name__, e)
     # a second calculator from materials *derived* from the first one's (a multiple, and one extended in
     # place), at the same wavelength: it must follow the new materials, whatever the first one remembered
     out["second"] = None
@@ -282,6 +323,9 @@ def judge(run, pt, case, replies):
     if out.get("mixed"):
         run.violation("materials of a private table (revised neutron data) and of the public table in one calculator differ "
                       "from the direct calculation on their weighted sum: %s" % out["mixed"], case, site="mixed-tables")
+    if out.get("series"):
+        run.violation("one calculator applied to a set of contrasts (results held while the later ones are computed) differs "
+                      "from the direct calculation on the weighted sum: %s" % out["series"], case, site="contrast-series")
     if out.get("second"):
         run.violation("a second calculator built from derived materials (2.5*m, m += H2O) disagrees with the direct "
                       "calculation: %s" % out["second"], case, site="second-calculator")
